@@ -197,8 +197,8 @@ pub fn history_str(ops: &[Op]) -> String {
 #[derive(Clone, Copy, Debug, PartialEq, Eq, Hash)]
 pub struct RefState {
     pub args: u8,
-    /// bit a*4+b
-    pub atts: u16,
+    /// bit a*5+b (five labels; in the C09 alphabets the fifth one is the never-declared label)
+    pub atts: u32,
     pub ids: [u8; 5],
     pub next_id: u8,
 }
@@ -222,7 +222,7 @@ impl RefState {
         self.args >> a & 1 == 1
     }
     pub fn has_att(&self, a: u8, b: u8) -> bool {
-        a < 4 && b < 4 && self.atts >> (a * 4 + b) & 1 == 1
+        a < 5 && b < 5 && self.atts >> (a as u32 * 5 + b as u32) & 1 == 1
     }
     pub fn classify(&self, op: &Op) -> OpClass {
         match *op {
@@ -275,19 +275,19 @@ impl RefState {
             }
             Op::RemArg(a) => {
                 self.args &= !(1 << a);
-                for x in 0..4u8 {
-                    self.atts &= !(1 << (a * 4 + x));
-                    self.atts &= !(1 << (x * 4 + a));
+                for x in 0..5u32 {
+                    self.atts &= !(1 << (a as u32 * 5 + x));
+                    self.atts &= !(1 << (x * 5 + a as u32));
                 }
             }
-            Op::NewAtt(a, b) => self.atts |= 1 << (a * 4 + b),
-            Op::RemAtt(a, b) => self.atts &= !(1 << (a * 4 + b)),
+            Op::NewAtt(a, b) => self.atts |= 1 << (a as u32 * 5 + b as u32),
+            Op::RemAtt(a, b) => self.atts &= !(1 << (a as u32 * 5 + b as u32)),
             Op::Query { .. } => {}
         }
     }
     /// the graph on label indices 0..4 restricted to present arguments, plus index map new -> label idx
     pub fn graph(&self) -> (Graph, Vec<usize>) {
-        let present: Vec<usize> = (0..MAX_LABELS).filter(|&a| self.has_arg(a as u8)).collect();
+        let present: Vec<usize> = (0..LABELS.len()).filter(|&a| self.has_arg(a as u8)).collect();
         let mut att = vec![];
         for (i, &a) in present.iter().enumerate() {
             for (j, &b) in present.iter().enumerate() {
@@ -313,7 +313,7 @@ pub struct StateAnswers {
 }
 
 thread_local! {
-    static ANSWER_CACHE: std::cell::RefCell<std::collections::HashMap<(u8, u16), Rc<StateAnswers>>> = std::cell::RefCell::new(std::collections::HashMap::new());
+    static ANSWER_CACHE: std::cell::RefCell<std::collections::HashMap<(u8, u32), Rc<StateAnswers>>> = std::cell::RefCell::new(std::collections::HashMap::new());
 }
 
 pub fn answers_of(s: &RefState) -> Rc<StateAnswers> {
@@ -764,13 +764,14 @@ pub fn long_scripts(kind: DynKind) -> Vec<(String, Vec<Op>)> {
         ops: Vec<Op>,
         s: RefState,
         kind: DynKind,
+        five: bool,
     }
     impl B {
         fn up(&mut self, op: Op) {
             assert_eq!(self.s.classify(&op), OpClass::Valid, "harness: script step {:?} is not a valid update", op);
             self.s.apply(&op);
             self.ops.push(op);
-            for a in 0..4u8 {
+            for a in 0..(if self.five { 5u8 } else { 4 }) {
                 if !self.s.has_arg(a) {
                     continue;
                 }
@@ -783,7 +784,7 @@ pub fn long_scripts(kind: DynKind) -> Vec<(String, Vec<Op>)> {
             }
         }
         fn new(kind: DynKind) -> B {
-            B { ops: vec![], s: RefState::new(), kind }
+            B { ops: vec![], s: RefState::new(), kind, five: false }
         }
     }
     let mut out = vec![];
@@ -855,6 +856,31 @@ pub fn long_scripts(kind: DynKind) -> Vec<(String, Vec<Op>)> {
         }
     }
     out.push(("flip".to_string(), b.ops));
+    // irregular histories over FIVE labels: a fixed linear-congruential walk chooses, at every step, one
+    // update among those valid in the current state (three walks with different multipliers); part of
+    // the finite scripted family, not a sample of anything
+    for (wi, (mul, add)) in [(37u64, 11u64), (53, 29), (101, 7)].into_iter().enumerate() {
+        let mut b = B::new(kind);
+        b.five = true;
+        let mut x: u64 = 1 + wi as u64;
+        for _ in 0..90 {
+            let mut cands: Vec<Op> = vec![];
+            for a in 0..5u8 {
+                cands.push(Op::NewArg(a));
+                cands.push(Op::RemArg(a));
+                for c in 0..5u8 {
+                    cands.push(Op::NewAtt(a, c));
+                    cands.push(Op::NewAtt(a, c)); // additions twice as likely as removals: the framework stays populated
+                    cands.push(Op::RemAtt(a, c));
+                }
+            }
+            cands.retain(|op| b.s.classify(op) == OpClass::Valid && !(matches!(op, Op::RemArg(_)) && b.s.args.count_ones() <= 2));
+            x = (x * mul + add) % 1_000_003;
+            let op = cands[(x % cands.len() as u64) as usize];
+            b.up(op);
+        }
+        out.push((format!("walk5_{}", wi), b.ops));
+    }
     out
 }
 
